@@ -742,6 +742,7 @@ def section_parser_model(make_element):
         r = make_element(interp)
         st.ghost['parsed-element'] = r
         st.ghost['parsed-from'] = started_at
+        st.ghost['parsed-by'] = self
         return r
 
     return model
@@ -782,7 +783,7 @@ M.loop(P_SEP + ':ParserFromSequenceOfParsers.parse', 0,
 # ============================================================================== the document parser
 # Lists of section elements are symbolic lists of objects (by handle); `is_item` compares an element of such a
 # list with an object.
-from contracts.common import is_item, conj, slot, snapshot_lists
+from contracts.common import is_item, conj, slot, snapshot_lists, all_keys
 from exactly_lib.section_document.impl import document_parser as dp
 
 ELEMENTS = MListOf(Any_)
@@ -823,33 +824,35 @@ RAW_DOC3 = Custom(_mk_raw_doc3)
 
 def _merged_as_specified(added_to, to_add, old):
     old_added, old_to_add = old
-    for k in KEYS3:
-        if k in old_added and k in old_to_add:
-            if not is_concat(added_to[k], old_added[k], old_to_add[k]):
-                return False
-        elif k in old_added:
-            if not same_items(added_to[k], old_added[k]):
-                return False
-        elif k in old_to_add:
-            if not (k in added_to and same_items(added_to[k], old_to_add[k])):
-                return False
-        elif k in added_to:
-            return False
-    return True
+    return conj([implies(k in old_added and k in old_to_add,
+                         k in added_to and is_concat(slot(added_to, k), slot(old_added, k), slot(old_to_add, k)))
+                 and implies(k in old_added and k not in old_to_add,
+                             k in added_to and same_items(slot(added_to, k), slot(old_added, k)))
+                 and implies(k not in old_added and k in old_to_add,
+                             k in added_to and same_items(slot(added_to, k), slot(old_to_add, k)))
+                 and implies(k not in old_added and k not in old_to_add, k not in added_to)
+                 for k in all_keys(added_to, to_add, old_added, old_to_add)])
 
+
+def _havoc_dict_of_lists(interp, d):
+    d.havoc(interp, 'post')
+
+
+NEVER_ASSUMED = lambda fn_name: False
 
 M.contract(P_DP + ':_add_raw_doc', params=dict(added_to=RAW_DOC3, to_add=RAW_DOC3),
-           old=lambda added_to, to_add: ({k: snapshot(v) for k, v in added_to.items()},
-                                         {k: snapshot(v) for k, v in to_add.items()}),
+           old=lambda added_to, to_add: (snapshot_lists(added_to), snapshot_lists(to_add)),
+           modifies={'added_to': HavocBy(_havoc_dict_of_lists)},
            ensures={
                'per-section: old elements followed by the added ones': lambda added_to, to_add, old:
                _merged_as_specified(added_to, to_add, old),
                'sections keep their order, new ones follow in the order of the added document':
-                   lambda added_to, old:
-                   list(added_to.keys()) == list(old[0].keys()) + [k for k in old[1].keys() if k not in old[0]],
+                   (lambda added_to, old:
+                    list(added_to.keys()) == list(old[0].keys()) + [k for k in old[1].keys() if k not in old[0]],
+                    NEVER_ASSUMED),
                'the added document is not changed': lambda to_add, old:
-               list(to_add.keys()) == list(old[1].keys())
-               and all(same_items(to_add[k], old[1][k]) for k in old[1].keys()),
+               conj([implies(k in old[1], k in to_add and same_items(slot(to_add, k), slot(old[1], k)))
+                     and implies(k not in old[1], k not in to_add) for k in all_keys(to_add, old[1])]),
            }, raises_only=())
 
 
@@ -1130,3 +1133,168 @@ M.contract(P_SWITCH,
            }, raises_only=())
 M.loop(P_SWITCH, 0, invariant=lambda self, orig, old: _switch_inv(self, orig, old),
        modifies=dict(IMPL_FRAME, section_line='local', section_name='local', msg='local'))
+
+
+# ---- one element: parsed by the parser of the current section, built with the location of the current file
+
+from exactly_lib.section_document.source_location import SourceLocationInfo, SourceLocationPath, SourceLocation
+
+P_IMPL = P_DP + ':_Impl'
+
+
+def located_in_current_file(location_info, self, source):
+    """a SourceLocationInfo that carries `source` (the lines), the path of the current file and the chain of
+    including files of the current file"""
+    path = location_info.source_location_path
+    return path.location.source is source \
+        and path.location.file_path_rel_referrer is self._current_file_location._file_path_rel_referrer \
+        and path.file_inclusion_chain is self._current_file_location._file_inclusion_chain \
+        and location_info._abs_path_of_dir_containing_root_file_path \
+        is self._current_file_location._abs_path_of_dir_containing_root_file_path
+
+
+def built_from(result, parsed, self):
+    """what parse_element_at_current_line... returns for the element `parsed` that the parser returned"""
+    if isinstance(parsed, pse.ParsedFileInclusionDirective):
+        return result is parsed
+    if not isinstance(result, model.SectionContentElement):
+        return False
+    if not located_in_current_file(result.source_location_info, self, parsed.source):
+        return False
+    if isinstance(parsed, pse.ParsedInstruction):
+        return result.element_type is ElementType.INSTRUCTION \
+            and result.instruction_info.instruction is parsed.instruction_info.instruction \
+            and result.instruction_info.description is parsed.instruction_info.description
+    return result.element_type is parsed.element_type and result.instruction_info is None
+
+
+def error_at(exc, self, source_lines):
+    """a FileSourceError for the lines `source_lines`, located in the current file, naming the current section"""
+    return exc.source is source_lines \
+        and located_in_current_file(exc.source_location_info, self, source_lines) \
+        and exc.maybe_section_name is self._name_of_current_section
+
+
+def _impl_frame_of_parse(self):
+    return (self._name_of_current_section, self._parser_for_current_section, self._elements_for_current_section,
+            lists_snapshot(self))
+
+
+M.contract(P_IMPL + '.parse_element_at_current_line_using_current_section_element_parser', inline=True,
+           params=dict(self=IMPL), ghosts=dict(orig=Str),
+           requires=lambda self, orig: impl_ok(self, orig) and in_section(self) and self._current_line is not None,
+           old=lambda self, orig: (off_of(self._document_source, orig), lists_snapshot(self),
+                                   snap(self._document_source)),
+           modifies={'self._document_source': PS_FRAME},
+           raises={FileSourceError: {'ensures': lambda self, orig, old, exc:
+                   # the parser did not recognise the line: nothing consumed, the error is about the current line
+                   unchanged(self._document_source, old[2]) and error_is_about_current_line(exc, self)
+                   and exc.maybe_section_name is self._name_of_current_section},
+                   PARSER_EXCEPTION: {'ensures': lambda self, orig, old:
+                   RI(self._document_source, orig) and off_of(self._document_source, orig) >= old[0]}},
+           ensures={
+               'built-from-what-the-parser-returned-with-the-location-of-the-current-file':
+                   lambda self, result, ghost: built_from(result, ghost['parsed-element'], self),
+               'parsed-by-the-parser-of-the-current-section-at-the-current-position': lambda self, ghost, old:
+               ghost['parsed-by'] is self._parser_for_current_section and ghost['parsed-from'] == old[0],
+               'source-moved-forward-lists-untouched': lambda self, orig, old:
+               RI(self._document_source, orig) and off_of(self._document_source, orig) >= old[0]
+               and lists_grown_by_new_empty_sections_only(self, old[1])
+               and other_lists_unchanged(self, old[1]),
+           }, raises_only=())
+
+
+# ---- files: reading, cycle check, recursion into included files
+
+from exactly_lib.section_document.impl import file_access
+
+PathI.attrs = {'key': Int, 'parent': Iface(lambda: PathI)}
+PathI.methods = {
+    '__truediv__': Method(returns=Iface(lambda: PathI), pure=True),
+    'resolve': Method(returns=Iface(lambda: PathI), pure=True),
+}
+
+CONF = Custom(_mk_conf)
+FILE_LOCATION_WITH_PATH = Inst(FileLocationInfo,
+                               _abs_path_of_dir_containing_root_file_path=Any_,
+                               _file_path_rel_referrer=PATH,
+                               _file_inclusion_chain=SOURCE_LOCATION_CHAIN)
+VISITED = ListOf(PATH)
+CYCLIC_INCLUSION = 'Cyclic inclusion of file'
+
+M.trust('impl.file_access.read_source_file (the file system): returns a ParseSource freshly created from the text '
+        'of the file -- the ghost `orig` of parse_file stands for that text -- or raises FileAccessError carrying '
+        'the path given for error messages, the inclusion chain and the section name it was given.')
+M.contract('exactly_lib.section_document.impl.file_access:read_source_file', trusted=True,
+           params=dict(file_path=PATH, file_path_for_error_message=Any_, file_inclusion_chain=Any_, section_name=Any_),
+           ghosts=dict(orig=Str),
+           returns=PARSE_SOURCE,
+           raises={FileAccessError: {'make': lambda file_path_for_error_message, file_inclusion_chain, section_name:
+                   FileAccessError(file_path_for_error_message, 'cannot read', file_inclusion_chain, section_name)}},
+           ensures={'fresh-source-over-the-text-of-the-file': lambda result, orig:
+                    RI(result, orig) and off_of(result, orig) == 0 and has_line(result)})
+M.assume('pathlib: `/`, resolve() and .parent are functions of their operands (resolve() does not change between '
+         'the calls made while one document is read); paths are compared by value (PathI.key).')
+
+
+def is_visited(path, visited):
+    return exists_range(0, len(visited), lambda j: visited[j] == path)
+
+
+def _no_parsing_started(trace):
+    return not any(e[0] == 'parse-source' for e in trace)
+
+
+def _havoc_nothing(interp, obj):
+    pass
+
+
+RAW_DOC = PDictOf(SECTION_NAMES, ELEMENTS)
+
+M.contract(P_DP + ':_parse_source', trusted=True, event='parse-source',
+           params=dict(conf=CONF, file_location_info=FILE_LOCATION_WITH_PATH, file_reference_relativity_root_dir=PATH,
+                       source=PARSE_SOURCE, visited_paths=VISITED),
+           ghosts=dict(orig=Str),
+           requires=lambda source, orig: RI(source, orig) and off_of(source, orig) == 0 and has_line(source),
+           modifies={'source': FORWARD},
+           returns=RAW_DOC,
+           may_raise=(FileSourceError, FileAccessError, PARSER_EXCEPTION))
+M.assume('_parse_source = `_Impl(...).apply()`: used through an assumed contract at its (recursive) call site in '
+         'parse_file -- any dictionary of element lists over the section names, FileSourceError, FileAccessError or an '
+         'exception of a parser.  The mechanisms inside are proved of _Impl.apply and the functions below it.')
+
+M.contract(P_DP + ':parse_file',
+           params=dict(conf=CONF, file_reference_relativity_root_dir=PATH, file_location_info=FILE_LOCATION_WITH_PATH,
+                       previously_visited_paths=VISITED),
+           ghosts=dict(orig=Str),
+           returns=RAW_DOC,
+           raises={FileAccessError: {'ensures': lambda conf, file_location_info, previously_visited_paths, trace, exc:
+                   (not _no_parsing_started(trace))      # (an error from inside the file: passed on)
+                   or (exc.erroneous_path is file_location_info._file_path_rel_referrer
+                       and exc.location_path is file_location_info._file_inclusion_chain
+                       and exc.maybe_section_name is conf.default_section_name)}},
+           may_raise=(FileSourceError, PARSER_EXCEPTION),
+           ensures={
+               'not-an-already-visited-file (a cycle is an error, raised before anything of the file is parsed)':
+                   lambda file_reference_relativity_root_dir, file_location_info, previously_visited_paths:
+                   not is_visited((file_reference_relativity_root_dir / file_location_info._file_path_rel_referrer)
+                                  .resolve(), previously_visited_paths),
+               'parsed-once-with-this-file-added-to-the-visited-paths-relative-to-its-own-directory':
+                   lambda file_reference_relativity_root_dir, file_location_info, previously_visited_paths, conf, trace:
+                   _parsed_as_specified(trace, file_reference_relativity_root_dir, file_location_info,
+                                        previously_visited_paths, conf),
+           })
+
+
+def _parsed_as_specified(trace, root, file_location_info, previously_visited_paths, conf):
+    events = [e for e in trace if e[0] == 'parse-source']
+    if len(events) != 1:
+        return False
+    a = events[0][1]
+    path = root / file_location_info._file_path_rel_referrer
+    vp = a['visited_paths']
+    return a['conf'] is conf and a['file_location_info'] is file_location_info \
+        and a['file_reference_relativity_root_dir'] == path.parent \
+        and len(vp) == len(previously_visited_paths) + 1 \
+        and vp[len(previously_visited_paths)] == path.resolve() \
+        and forall_range(0, len(previously_visited_paths), lambda j: vp[j] == previously_visited_paths[j])
